@@ -174,6 +174,7 @@ package grpctunnel
 //@ func (*defaultReceiver).dequeue
 //@   ghost credit uint64 = 0
 //@   loop 1 invariant[C05] @nocredit count("updateWindow") == 0 && windowUpdate == 0
+//@   loop 1 invariant[C05,C06] @monitor monitor(r.mu)
 //@   at call updateWindow#*
 //@     assert[C05]     @unlocked !held(r.mu)
 //@     assert[C05,C06] @exact    uint64(arg0) == credit && arg0 > 0
@@ -242,6 +243,7 @@ package grpctunnel
 //@   field mu monitor
 //@   invariant wf : stream != nil && isClosing != nil && tunnelOpts != nil
 //@   invariant[C03,C08,C09,C14] mu : @table streams != nil
+//@   invariant[C09]             mu : @nonnil forall k int64 :: has(streams, k) ==> streams[k] != nil
 
 //@ funcfield (*tunnelServer).isClosing ()
 //@   assigns nothing
@@ -678,3 +680,160 @@ package grpctunnel
 //@     assert[C17]     @tunnelmd arg1 == tunnelMetadata
 //@   locks s.mu
 //@   assigns *
+
+// ---------------------------------------------------------------------------
+// tunnel_client.go
+// ---------------------------------------------------------------------------
+
+//@ type tunnelChannel
+//@   field stream, tunnelMetadata, serverSendsSettings, tunnelOpts, ctx, cancel, tearDown immutable
+//@   field awaitSettings immutable signal
+//@   field settings, useRevision published_by awaitSettings
+//@   field streams, lastStreamID, streamCreated, err, finished guarded_by mu
+//@   field mu, streamCreation monitor
+//@   invariant wf : stream != nil && ctx != nil && cancel != nil && tunnelOpts != nil && awaitSettings != nil
+//@   invariant[C04,C14] mu : @closed   finished <==> streams == nil
+//@   invariant[C04]     mu : @cause    finished <==> err != nil
+//@   invariant[C04,C09] mu : @nonnil   forall k int64 :: has(streams, k) ==> streams[k] != nil
+
+//@ funcfield (*tunnelChannel).tearDown (ch)
+//@   assigns *
+//@   effects event:tearDown
+
+//@ type tunnelClientStream
+//@   field ctx, cancel, ch, streamID, method, stream, headersTargets, trailersTargets, isClientStream, isServerStream, sender, receiver immutable
+//@   field gotHeadersSignal immutable signal closedby metaMu
+//@   field doneSignal immutable signal closedby done
+//@   field done token
+//@   field gotHeaders, headers, trailers guarded_by metaMu
+//@   field readErr guarded_by readMu
+//@   field numSent, halfClosed guarded_by writeMu
+//@   field metaMu, readMu, writeMu monitor
+//@   invariant wf : ch != nil && stream != nil && sender != nil && receiver != nil && cancel != nil && ctx != nil && gotHeadersSignal != nil && doneSignal != nil && gotHeadersSignal != doneSignal
+//@   invariant wf : forall i int :: 0 <= i && i < len(trailersTargets) ==> trailersTargets[i] != nil
+//@   invariant wf : forall i int :: 0 <= i && i < len(headersTargets) ==> headersTargets[i] != nil
+//@   invariant[C02]     metaMu : @hdrsignal gotHeaders <==> isClosed(gotHeadersSignal)
+//@   invariant[C16]     writeMu : @onerequest !isClientStream ==> numSent <= 1
+//@   invariant[C02,C07] done : @notyetdone !isClosed(doneSignal)
+//@   invariant[C02,C07] stable : @terminated (rcancelled(receiver) || rclosed(receiver)) ==> atomicLoad(done) != nil
+//@   invariant[C02,C07] stable : @donesignal isClosed(doneSignal) ==> atomicLoad(done) != nil
+
+//@ func (*tunnelChannel).getStream
+//@   locks c.mu
+//@   assigns nothing
+//@   ensures[C01,C03,C07,C09] @found   old(has(c.streams, streamID)) ==> result0 == old(c.streams[streamID]) && result1 == nil
+//@   ensures[C07,C09]         @late    !old(has(c.streams, streamID)) && old(c.streamCreated) && streamID <= old(c.lastStreamID) ==> result0 == nil && result1 == nil
+//@   ensures[C03,C09]         @unknown !old(has(c.streams, streamID)) && !(old(c.streamCreated) && streamID <= old(c.lastStreamID)) ==> result0 == nil && result1 != nil
+//@   ensures[C03,C07]         @readonly c.lastStreamID == old(c.lastStreamID) && c.streams == old(c.streams) && c.finished == old(c.finished)
+//@   effects nosend, nowait
+//@   nopanic[C09]
+
+//@ func (*tunnelChannel).removeStream
+//@   locks c.mu
+//@   assigns nothing
+//@   ensures[C14]     @removed  !has(c.streams, streamID)
+//@   ensures[C03,C14] @onlythis forall k int64 :: k != streamID ==> has(c.streams, k) == old(has(c.streams, k))
+//@   ensures[C07,C08] @highwater c.lastStreamID == old(c.lastStreamID) && c.streamCreated == old(c.streamCreated) && c.finished == old(c.finished)
+//@   effects nosend, nowait
+//@   nopanic[C09,C14]
+
+//@ func (*tunnelChannel).close
+//@   at call tearDown#1
+//@     assert[C12] @beforefinished !held(c.mu)
+//@   loop 1 invariant[C04] @cancelled forall k int64 :: visited(k) ==> cancelCalled(c.streams[k].cancel)
+//@   loop 1 invariant[C04] @pending   c.finished && c.err != nil && c.streams == old(c.streams) && !old(c.finished) && c.err == ite(old(err) == nil, io.EOF, old(err))
+//@   ensures[C04]     @first    !old(c.finished) ==> result && c.finished && c.streams == nil && cancelCalled(c.cancel) && c.err == ite(old(err) == nil, io.EOF, old(err))
+//@   ensures[C04]     @streams  !old(c.finished) ==> forall k int64 :: old(has(c.streams, k)) ==> cancelCalled(old(c.streams[k]).cancel)
+//@   ensures[C04]     @later    old(c.finished) ==> !result && c.err == old(c.err) && c.streams == old(c.streams) && c.finished
+//@   locks c.mu
+//@   assigns *
+//@   nopanic[C09]
+
+//@ func (*tunnelChannel).Close
+//@   inline
+
+//@ func (*tunnelChannel).Err
+//@   locks c.mu
+//@   assigns nothing
+//@   ensures[C04] @clean  old(c.err) == io.EOF ==> result == nil
+//@   ensures[C04] @cause  old(c.err) != nil && old(c.err) != io.EOF ==> result == old(c.err)
+//@   ensures[C04] @open   old(c.err) == nil ==> count("call:Err") == 0
+//@   nopanic[C09]
+
+// ----- client stream: completion -------------------------------------------------
+
+//@ func (*tunnelClientStream).loadDone
+//@   inline
+
+//@ func (*tunnelClientStream).finishStream
+//@   ghost outcome error = nil
+//@   at call CompareAndSwap#1
+//@     assert[C07] @mapping (old(err) == nil ==> true) && (old(err) == context.Canceled ==> true)
+//@   at call close#1
+//@     assert[C02,C15] @publishfirst isClosed(st.doneSignal) && st.trailers == old(trailers) && isClosed(st.gotHeadersSignal)
+//@     assert[C07]     @token        won(st.done)
+//@   at close#*
+//@     assert[C02,C07,C15] @closertoken won(st.done)
+//@   at call removeStream#1
+//@     assert[C14] @ownentry arg1 == st.streamID && arg0 == st.ch
+//@   loop 1 invariant[C02] @targets held(st.metaMu) && st.trailers == old(trailers) && won(st.done) && !isClosed(st.doneSignal) && (st.gotHeaders <==> isClosed(st.gotHeadersSignal))
+//@   ensures[C07]     @winner   result <==> won(st.done)
+//@   ensures[C07]     @loser    !result ==> count("call:removeStream") == 0 && count("call:close") == 0 && count("close") == 0 && count("cancel()") == 0 && count("acquired") == 0
+//@   ensures[C02,C07] @done     result ==> isClosed(st.doneSignal) && isClosed(st.gotHeadersSignal) && st.trailers == old(trailers) && st.gotHeaders
+//@   ensures[C14]     @released result ==> !has(st.ch.streams, st.streamID) && cancelCalled(st.cancel) && rclosed(st.receiver)
+//@   ensures[C07]     @recorded atomicLoad(st.done) != nil
+//@   locks st.ch.mu, st.metaMu
+//@   assigns st.done, cancel(st.cancel), rclosed(st.receiver), chan(st.doneSignal), chan(st.gotHeadersSignal), elems(st.trailersTargets)
+//@   effects nosend, nowait
+//@   nopanic[C09]
+
+//@ func (*tunnelClientStream).cancelStream
+//@   at call cancel#1
+//@     assert[C07] @token count("call:finishStream") == 1
+//@   at go#1
+//@     assert[C07,C13] @once count("go") == 0
+//@   ensures[C07,C13] @atmostone count("go") <= 1 && count("call:cancel") == count("go")
+//@   locks st.ch.mu, st.metaMu
+//@   assigns st.done, cancel(st.cancel), rclosed(st.receiver), rcancelled(st.receiver), chan(st.doneSignal), chan(st.gotHeadersSignal), elems(st.trailersTargets)
+//@   effects nosend, nowait
+//@   nopanic[C09]
+
+//@ func (*tunnelClientStream).cancelStream$1
+//@   requires st != nil
+//@   at call Send#1
+//@     assert[C07,C13] @cancelframe arg0.StreamId == st.streamID && arg0.Frame is *tunnelpb.ClientToServer_Cancel
+//@   ensures[C13,C14] @once count("carrierSend") == 1
+//@   assigns nothing
+//@   nopanic[C09]
+
+//@ func (*tunnelClientStream).acceptServerFrame
+//@   ghost acceptErr error = nil
+//@   at aftercall accept#1
+//@     ghost acceptErr = result
+//@   at call finishStream#1
+//@     assert[C09] @settings old(frame) is *tunnelpb.ServerToClient_Settings && arg1 != nil && arg2 == nil
+//@   at call finishStream#2
+//@     assert[C02] @closestream old(frame) is *tunnelpb.ServerToClient_CloseStream
+//@   at call updateWindow#1
+//@     assert[C05,C06] @credit old(frame) is *tunnelpb.ServerToClient_WindowUpdate && arg0 == as(old(frame), *tunnelpb.ServerToClient_WindowUpdate).WindowUpdate
+//@   at call finishStream#3
+//@     assert[C09] @unset old(frame) == nil && arg1 != nil
+//@   at call accept#1
+//@     assert[C01] @sameframe arg0 == old(frame)
+//@   at call finishStream#4
+//@     assert[C03,C06] @overrun arg1 == acceptErr && acceptErr != nil && arg2 == nil
+//@   at call fromProto#1
+//@     assert[C02] @hdrsrc arg0 == as(old(frame), *tunnelpb.ServerToClient_ResponseHeaders).ResponseHeaders
+//@   at call fromProto#2
+//@     assert[C02] @tlrsrc arg0 == as(old(frame), *tunnelpb.ServerToClient_CloseStream).CloseStream.ResponseTrailers
+//@   at call FromProto#1
+//@     assert[C02] @statussrc arg0 == as(old(frame), *tunnelpb.ServerToClient_CloseStream).CloseStream.Status
+//@   at close#1
+//@     assert[C02] @hdronce !isClosed(st.gotHeadersSignal) && held(st.metaMu)
+//@   loop 1 invariant[C02] @targets held(st.metaMu) && st.gotHeaders && !isClosed(st.gotHeadersSignal)
+//@   ensures[C07,C09] @niltarget st == nil ==> count("call:finishStream") == 0 && count("call:accept") == 0 && count("call:updateWindow") == 0 && count("close") == 0
+//@   ensures[C03]     @once      count("call:finishStream") <= 1
+//@   locks st.ch.mu, st.metaMu
+//@   assigns st.done, cancel(st.cancel), rclosed(st.receiver), chan(st.doneSignal), chan(st.gotHeadersSignal), elems(st.trailersTargets), elems(st.headersTargets)
+//@   effects nilrecv-ok, nosend, nowait
+//@   nopanic[C09]
